@@ -47,6 +47,7 @@ type tlsServer struct {
 
 type tlsWorld struct {
 	withCA, noCA *tlsServer
+	bundled      *tlsServer // authority configured; the server certificate file also carries the certificate of a foreign authority
 	peerEdge     *tlsServer // its peers are named like the repository's signer certificates
 	otherCA      *x509.Certificate
 	otherCAKey   *ecdsa.PrivateKey
@@ -103,6 +104,19 @@ func (w *tlsWorld) startServer(t *testing.T, rc *RunCtx, caCert []byte, nameFmt 
 }
 
 func (w *tlsWorld) startServerWith(t *testing.T, rc *RunCtx, caCert []byte, nf string, adminIPs []string) *tlsServer {
+	return w.startServerCert(t, rc, caCert, nf, adminIPs, resources.SignerTest01Crt)
+}
+
+// startServerPop starts an edge in front of an instance that holds a ready-made population.
+func (w *tlsWorld) startServerPop(t *testing.T, rc *RunCtx, perms map[string][]*checker.Permissions, pop *Population) *tlsServer {
+	return w.startServerFull(t, rc, resources.CACrt, "", nil, resources.SignerTest01Crt, perms, pop)
+}
+
+func (w *tlsWorld) startServerCert(t *testing.T, rc *RunCtx, caCert []byte, nf string, adminIPs []string, serverCert []byte) *tlsServer {
+	return w.startServerFull(t, rc, caCert, nf, adminIPs, serverCert, nil, nil)
+}
+
+func (w *tlsWorld) startServerFull(t *testing.T, rc *RunCtx, caCert []byte, nf string, adminIPs []string, serverCert []byte, permsOverride map[string][]*checker.Permissions, pop *Population) *tlsServer {
 	s := NewSched(rc, SchedCfg{})
 	perms := map[string][]*checker.Permissions{
 		"client-test01": {{Path: "Wallet 1", Operations: []string{"All"}}, {Path: "Wallet 3", Operations: []string{"All"}}},
@@ -111,7 +125,14 @@ func (w *tlsWorld) startServerWith(t *testing.T, rc *RunCtx, caCert []byte, nf s
 	}
 	w1 := WalletSpec{Name: "Wallet 1", Kind: "nd", Accounts: []string{"Account 0", "Account 1"}}
 	w2 := WalletSpec{Name: "Wallet 2", Kind: "nd", Accounts: []string{"Account 0", "Account 1"}}
-	c := NewCluster(t, rc, s, ClusterCfg{IDs: []uint64{1, 2, 3}, Perms: perms, NameFmt: nf, AdminIPs: adminIPs, Specs: []WalletSpec{w1, w2, {Name: "Wallet 3", Kind: "distributed"}}})
+	ccfg := ClusterCfg{IDs: []uint64{1, 2, 3}, Perms: perms, NameFmt: nf, AdminIPs: adminIPs, Specs: []WalletSpec{w1, w2, {Name: "Wallet 3", Kind: "distributed"}}}
+	if permsOverride != nil {
+		ccfg.Perms = permsOverride
+	}
+	if pop != nil {
+		ccfg.Pops = []*Population{pop}
+	}
+	c := NewCluster(t, rc, s, ccfg)
 	// Peer names as in the repository's test certificates.
 	n := c.Nodes[0]
 	var port int
@@ -123,7 +144,7 @@ func (w *tlsWorld) startServerWith(t *testing.T, rc *RunCtx, caCert []byte, nf s
 			grpcapi.WithSigner(n.Inst.Signer), grpcapi.WithLister(n.Inst.Lister), grpcapi.WithProcess(n.Inst.Process),
 			grpcapi.WithAccountManager(n.Inst.AcctMgr), grpcapi.WithWalletManager(n.Inst.WalletMgr), grpcapi.WithPeers(n.Peers),
 			grpcapi.WithName("signer-test01"), grpcapi.WithID(1),
-			grpcapi.WithServerCert(resources.SignerTest01Crt), grpcapi.WithServerKey(resources.SignerTest01Key), grpcapi.WithCACert(caCert),
+			grpcapi.WithServerCert(serverCert), grpcapi.WithServerKey(resources.SignerTest01Key), grpcapi.WithCACert(caCert),
 			grpcapi.WithListenAddress(fmt.Sprintf("127.0.0.1:%d", port)))
 		if err == nil {
 			break
@@ -141,7 +162,6 @@ func getTLSWorld(t *testing.T, rc *RunCtx) *tlsWorld {
 		var otherPEM, sysPEM []byte
 		w.otherCA, w.otherCAKey, otherPEM = mkCA("Some other authority")
 		w.sysCA, w.sysCAKey, sysPEM = mkCA("An authority in the host trust store")
-		_ = otherPEM
 		// Put one foreign authority into the host's trust store (read lazily by crypto/x509).
 		bundle := filepath.Join(ScratchRoot(), "system-roots.pem")
 		if err := os.WriteFile(bundle, sysPEM, 0o600); err != nil {
@@ -153,6 +173,10 @@ func getTLSWorld(t *testing.T, rc *RunCtx) *tlsWorld {
 		w.withCA = w.startServer(t, setupRC, resources.CACrt)
 		w.noCA = w.startServer(t, setupRC, nil)
 		w.peerEdge = w.startServer(t, setupRC, resources.CACrt, "signer-test%02d")
+		// A server certificate file that is a bundle: the leaf followed by the certificate of the foreign authority
+		// (an operator who bought the server certificate elsewhere and pasted its chain).  What rides along in that
+		// file says nothing about whose client certificates are honoured.
+		w.bundled = w.startServerCert(t, setupRC, resources.CACrt, "", nil, append(append(append([]byte{}, resources.SignerTest01Crt...), '\n'), otherPEM...))
 		tlsW = w
 	})
 	return tlsW
@@ -534,16 +558,17 @@ func runTLS(t *testing.T, rc *RunCtx) {
 	methods := tlsMethods()
 	type tcase struct {
 		noCA   bool
+		bundle bool
 		m      int
 		cred   int
 		wallet string
 	}
 	var table []tcase
-	for _, noCA := range []bool{false, true} {
+	for _, cfg := range []int{0, 1, 2} {
 		for m := range methods {
 			for c := range tlsCredKinds {
 				for _, wl := range []string{"Wallet 1", "Wallet 2"} {
-					table = append(table, tcase{noCA, m, c, wl})
+					table = append(table, tcase{cfg == 1, cfg == 2, m, c, wl})
 				}
 			}
 		}
@@ -565,6 +590,9 @@ func runTLS(t *testing.T, rc *RunCtx) {
 	cfgName := "authority-configured"
 	if tc.noCA {
 		srv, cfgName = w.noCA, "no-authority-configured"
+	}
+	if tc.bundle {
+		srv, cfgName = w.bundled, "authority-configured-and-foreign-authority-in-the-server-certificate-file"
 	}
 	m, cred := methods[tc.m], tlsCredKinds[tc.cred]
 	name := fmt.Sprintf("%s/%s/%s/%s", cfgName, m.Name, cred, tc.wallet)
